@@ -56,7 +56,7 @@ type c15Case struct {
 // descriptors for fields of A.T1; %2 = A's second type (T2), %B = B's type
 var c15Descs = []string{
 	"int", "string?", "set of int", "sequence of string",
-	"T2", "B.%B", "set of T2", "sequence of B.%B", "T1", "T2.x", "sequence of T2", "Outer%2EInner", "T2?",
+	"T2", "B.%B", "set of T2", "sequence of B.%B", "T1", "T2.x", "sequence of T2", "Outer%2EInner", "T2?", "Outer.Inner",
 }
 
 func (c15) Bounds(tier string) map[string]interface{} {
@@ -293,6 +293,7 @@ func (c15) Run(c core.Case) core.Outcome {
 			}
 			// fields and relationships
 			wantRel := map[[2]string]int{}
+			loose := map[[2]string]bool{}
 			for _, n := range names {
 				an := strings.SplitN(n, ".", 2)[0]
 				t := m.Apps[an].Types[strings.SplitN(n, ".", 2)[1]]
@@ -320,11 +321,21 @@ func (c15) Run(c core.Case) core.Outcome {
 					case *sysl.Type_TypeRef:
 						p := x.TypeRef.GetRef().GetPath()
 						want = p[len(p)-1]
+						// a plain reference is listed by the name it was written with: [application.]path, once
+						full := strings.Join(append(append([]string{}, x.TypeRef.GetRef().GetAppname().GetPart()...), p...), ".")
+						if t.GetTuple() != nil && !strings.Contains(got, "**"+full+"**") && !strings.Contains(got, " "+full) && strings.TrimSpace(got) != full {
+							return fail("field-label|"+expected[n], fmt.Sprintf("field %s.%s refers to %s but is listed as %q\n%s", n, fn, full, got, text))
+						}
 					}
 					if !strings.Contains(got, want) {
 						return fail("field-type|"+expected[n], fmt.Sprintf("field %s.%s is listed as %q, expected a type mentioning %q\n%s", n, fn, got, want, text))
 					}
-					if tgt := resolveRef(m, an, ft); tgt != "" && tgt != n {
+					if r := ft.GetTypeRef().GetRef(); r != nil && r.GetAppname() == nil && len(r.GetPath()) > 1 && t.GetTuple() != nil {
+						// 'Outer.Inner' written in a tuple field names either the nested type Outer.Inner or the
+						// member Inner of Outer: which relationship it stands for is not fixed by the property
+						loose[[2]string{n, an + "." + r.GetPath()[0]}] = true
+						loose[[2]string{n, an + "." + strings.Join(r.GetPath(), ".")}] = true
+					} else if tgt := resolveRef(m, an, ft); tgt != "" && tgt != n {
 						if _, drawn := expected[tgt]; drawn {
 							wantRel[[2]string{n, tgt}]++
 						}
@@ -352,6 +363,9 @@ func (c15) Run(c core.Case) core.Outcome {
 				rels++
 			}
 			for k, w := range wantRel {
+				if loose[k] {
+					continue
+				}
 				if gotRel[k] != w {
 					kind := "relationship-missing"
 					if gotRel[k] > w {
@@ -365,6 +379,9 @@ func (c15) Run(c core.Case) core.Outcome {
 				}
 			}
 			for k, g := range gotRel {
+				if loose[k] {
+					continue
+				}
 				if wantRel[k] == 0 {
 					sig := "relationship-unfounded|" + expected[k[0]] + "->" + expected[k[1]]
 					if expected[k[0]] == "table" {
